@@ -1,6 +1,8 @@
 package main
 
 import (
+	"strings"
+	"hash/crc32"
 	"flag"
 	"fmt"
 	"os"
@@ -133,6 +135,10 @@ func cmdVC(mod, pkgPath, fnName, dump string) int {
 		fmt.Fprintln(os.Stderr, err)
 		return 2
 	}
+	variant := ""
+	if i := strings.Index(fnName, "~"); i >= 0 {
+		fnName, variant = fnName[:i], fnName[i+1:]
+	}
 	var fns []*ssa.Function
 	if fnName != "" {
 		f := prog.Func(fnName)
@@ -154,7 +160,7 @@ func cmdVC(mod, pkgPath, fnName, dump string) int {
 			defer wg.Done()
 			sem <- struct{}{}
 			defer func() { <-sem }()
-			rs := VerifyFunc(prog, specs, f, "quick", nil, nil)
+			rs := verifyFuncVariant(prog, specs, f, variant, "quick", nil, nil, nil)
 			mu.Lock()
 			all = append(all, rs...)
 			mu.Unlock()
@@ -168,9 +174,13 @@ func cmdVC(mod, pkgPath, fnName, dump string) int {
 		if fnName != "" || r.Status != "proved" {
 			fmt.Printf("%-11s %-70s %5.2fs %s %s\n", r.Status, r.Name, r.Secs, r.Solver, r.Detail)
 		}
-		if r.Status != "proved" && dump != "" && r.Query != "" {
+		if (r.Status != "proved" || os.Getenv("GOVC_DUMPALL") != "") && dump != "" && r.Query != "" {
 			os.MkdirAll(dump, 0o755)
-			os.WriteFile(dump+"/"+sanitize(r.Name)+".smt2", []byte(r.Query+"(check-sat)\n(get-model)\n"), 0o644)
+			fn := sanitize(r.Name)
+			if len(fn) > 150 {
+				fn = fmt.Sprintf("%s_%08x", fn[:150], crc32.ChecksumIEEE([]byte(fn)))
+			}
+			os.WriteFile(dump+"/"+fn+".smt2", []byte(r.Query+"(check-sat)\n(get-model)\n"), 0o644)
 		}
 	}
 	fmt.Println(counts)
